@@ -188,6 +188,46 @@ def merge_check(cname, uni, kinds, n, fu):
     return True
 
 
+def after_refused_commit(mode_r: bool, twice: bool) -> bool:
+    """
+    post: _
+    """
+    # a refused commit (read-only record, or nothing to commit) must not make a later merge fail:
+    # merging is refused only for uncommitted changes or stubs
+    C = CLS[SEL.get("cls", "mf")]
+    mode_r = True if mode_r else False
+    twice = True if twice else False
+    reach()
+    with untraced():
+        INST.reset()
+        r = C(REC_PATH, "w")
+        r["a"] = 1
+        r.commit_patch()
+        r.create_patch()
+        r["b"] = 2
+        r.commit_patch()
+        if mode_r:
+            r.close()
+            r = C(REC_PATH, "r")
+        v = view(r)
+        for _ in range(2 if twice else 1):
+            try:
+                r.commit_patch()
+                return False  # nothing to commit: must be refused
+            except ValueError:
+                pass
+        try:
+            r.merge_files(FakePath("/d/mrg"))
+        except (ValueError, AssertionError) as e:
+            note(("merge fails after a refused commit", type(e).__name__, str(e)[:120]))
+            return False
+        m = C("/d/mrg", "r")
+        ok = view(m) == v and view(r) == v
+        m.close()
+        r.close()
+        return ok
+
+
 def refused_stub(patched: bool, reopened: bool) -> bool:
     """
     post: _
